@@ -169,3 +169,18 @@ impl StoredFilter {
     #[verifier::external_body]
     pub fn is_safe(&self) -> (r: bool) ensures r == self.safe_spec() { unimplemented!() }
 }
+// ---- the ordinary string constructors (engine K group safemark proves the kind on the real impls): NOT safe
+impl Value {
+    pub uninterp spec fn of_string(s: String) -> Value;
+}
+pub broadcast proof fn axiom_of_string_is_normal(s: String)
+    ensures !(#[trigger] Value::of_string(s)).safe_spec(), !Value::of_string(s).undefined_spec(), Value::of_string(s).fmt_spec() == str_bytes(s)
+{ admit(); }
+impl vstd::std_specs::convert::FromSpecImpl<String> for Value {
+    open spec fn obeys_from_spec() -> bool { true }
+    open spec fn from_spec(v: String) -> Value { Value::of_string(v) }
+}
+impl From<String> for Value {
+    #[verifier::external_body]
+    fn from(v: String) -> Value { unimplemented!() }
+}
